@@ -152,6 +152,12 @@ func (r *schedRun) watchConsumer(d time.Duration) string {
 }
 
 func (r *schedRun) qstep(st *sStep) string {
+	out := r.qstep1(st)
+	r.trace = append(r.trace, sObs{kind: st.kind, res: out, histLen: len(r.hist), ntrim: r.ntrim})
+	return out
+}
+
+func (r *schedRun) qstep1(st *sStep) string {
 	ctx := context.Background()
 	switch st.kind {
 	case "commit":
@@ -329,8 +335,21 @@ func runSchedCase(c *sx) string {
 // ---- generator (online) ----
 
 func genSchedCase(r *rng) (string, string) {
+	t, o, _, _, _ := genSchedCaseTrace(r)
+	return t, o
+}
+
+func genSchedCaseTrace(r *rng) (text, obs string, steps []*sStep, trace []sObs, hist []histEv) {
 	run := newSchedRun()
-	defer run.finish()
+	defer func() {
+		trace, hist = run.trace, run.hist
+		run.finish()
+	}()
+	text, obs, steps = genSchedCase1(r, run)
+	return
+}
+
+func genSchedCase1(r *rng, run *schedRun) (string, string, []*sStep) {
 	var steps []*sStep
 	var outs []string
 	add := func(st *sStep) string {
@@ -350,7 +369,7 @@ func genSchedCase(r *rng) (string, string) {
 		add(&sStep{kind: "trim", k: r.intn(run.olen + 1)})
 	}
 	if add(&sStep{kind: "watch", scope: genScope(r)}) != "W" {
-		return schedText(steps), strings.Join(outs, " ")
+		return schedText(steps), strings.Join(outs, " "), steps
 	}
 	ended := false
 	for round, rounds := 0, 1+r.intn(4); round < rounds && !ended; round++ {
@@ -446,7 +465,157 @@ func genSchedCase(r *rng) (string, string) {
 			ended = true
 		}
 	}
-	return schedText(steps), strings.Join(outs, " ")
+	return schedText(steps), strings.Join(outs, " "), steps
+}
+
+// ---- model-free judgement of a scheduled run (oracle `scheduled`) ----
+//
+// A consumer that is released into / sits in the select must come back with
+// the first in-scope event that a COMPLETED commit has published (never
+// PARKED/BLOCKED while such an event is retained), must come back after Close,
+// cancellation and Engine.Close, delivers in order without gaps, and fails
+// with Lost only when retention passed it.
+func judgeSchedTrace(steps []*sStep, trace []sObs, hist []histEv) [][3]string {
+	var fails [][3]string
+	fail := func(sig, what string, i int) { fails = append(fails, [3]string{sig, what, strconv.Itoa(i)}) }
+	var scope []string
+	pos, histLen, ntrim := 0, 0, 0
+	watching, ended, expectInv := false, "", false
+	for i, st := range steps {
+		if i >= len(trace) {
+			break
+		}
+		o := trace[i]
+		switch st.kind {
+		case "watch":
+			scope, watching, pos = st.scope, o.res == "W", histLen
+		case "close", "cancel", "engineclose":
+			if ended == "" {
+				ended = st.kind
+			}
+		case "next", "trynext", "await":
+			if !watching {
+				break
+			}
+			var avail []int // in-scope events of completed commits ahead of the stream, still retained
+			for j := pos; j < histLen; j++ {
+				if j >= ntrim && oScope(scope, hist[j]) {
+					avail = append(avail, j)
+				}
+			}
+			switch {
+			case o.res == "PARKED" || o.res == "BLOCKED":
+				if ended != "" {
+					fail("C09:"+ended+"-does-not-wake", "the consumer stays in the select ("+o.res+") after "+ended, i)
+				} else if expectInv {
+					fail("C09:no-invalidate-after-drop", "the consumer waits ("+o.res+") instead of returning the invalidate event", i)
+				} else if len(avail) > 0 && ntrim <= pos {
+					if st.kind == "await" {
+						fail("C09:lost-wakeup", "the consumer stays in the select ("+o.res+") although completed commits have published in-scope events "+strconv.Itoa(avail[0])+".. after it released the mutex: the wake-up was lost", i)
+					} else {
+						fail("C09:missed-available-event", "Next waits although in-scope events "+strconv.Itoa(avail[0])+".. are committed and retained", i)
+					}
+				}
+			case o.res == "HANG":
+				fail("C09:stall", "Next neither returned nor reached the wait point within 2 s", i)
+			case o.res == "INVALIDATE":
+				if !expectInv {
+					fail("C09:spurious-invalidate", "invalidate without a drop of the stream's namespace", i)
+				}
+				expectInv, ended = false, "invalidate"
+			case o.res == "LOST":
+				if ntrim < pos {
+					fail("C09:lost-without-trim", "ErrLostOplogPosition although the stream's reference event is retained", i)
+				}
+				ended = "lost"
+			case o.res == "CLOSED" || o.res == "ERR" || o.res == "NOTHING":
+				if ended == "" && !(st.kind == "trynext" && o.res == "NOTHING") {
+					fail("C09:closed-unexpectedly", "the call returned false ("+o.res+") without Close, cancel, Engine.Close, invalidate or error", i)
+				}
+				if st.kind == "trynext" && o.res == "NOTHING" && ended == "" && len(avail) > 0 && ntrim <= pos {
+					fail("C09:missed-available-event", "TryNext reports nothing although in-scope events are committed and retained", i)
+				}
+			default: // a rank
+				rk, err := strconv.Atoi(o.res)
+				if err != nil {
+					fail("C09:bad-observation", o.res, i)
+					break
+				}
+				if ended != "" && ended != "cancel" {
+					fail("C09:delivery-after-end", "event delivered after "+ended, i)
+				}
+				if rk < pos || !oScope(scope, hist[rk]) {
+					fail("C09:duplicate-or-out-of-scope", "event "+o.res+" delivered at position "+strconv.Itoa(pos), i)
+				} else if len(avail) > 0 && avail[0] < rk {
+					fail("C09:gap", "retained in-scope event "+strconv.Itoa(avail[0])+" skipped, "+o.res+" delivered", i)
+				}
+				pos = rk + 1
+				if oInvalidates(scope, hist[rk]) {
+					expectInv = true
+				}
+			}
+		}
+		histLen, ntrim = o.histLen, o.ntrim
+	}
+	return fails
+}
+
+func oracleC09Scheduled(r *rng, n int, st *oracleStats) []oracleFailure {
+	st.Rule = "scheduled runs under the verif-hook controller (n/8 schedules as in family streamsched), judged without the model: a consumer released into the select returns the first in-scope event published by a completed commit (no lost wake-up in the window between s.mutex.Unlock() and the select), returns after Close / cancel / Engine.Close, delivers gap-free in order, Lost only after retention passed it"
+	st.Samples = []string{}
+	var fails []oracleFailure
+	runs := n / 8
+	if runs < 50 {
+		runs = 50
+	}
+	seeds := make([]uint64, runs)
+	for i := range seeds {
+		seeds[i] = r.u64()
+	}
+	type job struct {
+		text  string
+		fails [][3]string
+		outs  string
+	}
+	jobs := make([]job, runs)
+	var wg sync.WaitGroup
+	sem := make(chan struct{}, 24)
+	for i := range seeds {
+		wg.Add(1)
+		go func(i int) {
+			defer wg.Done()
+			sem <- struct{}{}
+			defer func() { <-sem }()
+			text, outs, steps, trace, hist := genSchedCaseTrace(newRng(seeds[i]))
+			jobs[i] = job{text, judgeSchedTrace(steps, trace, hist), outs}
+		}(i)
+	}
+	wg.Wait()
+	seen := map[string]int{}
+	for _, j := range jobs {
+		st.Evaluations++
+		if strings.Contains(j.outs, "PARKED") {
+			st.Nontrivial++
+		}
+		for _, t := range strings.Fields(j.outs) {
+			if t == "PARKED" || t == "BLOCKED" || t == "LOST" || t == "CLOSED" || t == "ERR" || t == "INVALIDATE" {
+				st.Dist["sched:"+t]++
+			}
+		}
+		if len(st.Samples) < 2 {
+			st.Samples = append(st.Samples, j.text+" => "+j.outs)
+		}
+		for _, f := range j.fails {
+			st.Dist["failure:"+f[0]]++
+			seen[f[0]]++
+			if seen[f[0]] > 3 {
+				continue
+			}
+			fails = append(fails, oracleFailure{Property: "C09", Signature: f[0], What: f[1], Family: "streamsched", Case: j.text,
+				Detail: map[string]string{"step": f[2], "observed": j.outs}})
+		}
+	}
+	return fails
 }
 
 var schedBatch [][2]string
@@ -483,6 +652,33 @@ func nextSchedCase(r *rng) string {
 }
 
 func init() {
+	registerOracle(&oracle{prop: "C09", name: "scheduled", run: oracleC09Scheduled})
+	schedReplay = func(f oracleFailure) (string, bool) {
+		c, err := parseSx(f.Case)
+		if err != nil {
+			return "bad case", false
+		}
+		steps := parseSchedScript(c)
+		r := newSchedRun()
+		var outs []string
+		for _, st := range steps {
+			outs = append(outs, r.qstep(st))
+		}
+		trace, hist := r.trace, r.hist
+		r.finish()
+		text := "schedule: " + f.Case + "\nobserved: " + strings.Join(outs, " ") + "\n"
+		again := false
+		for _, jf := range judgeSchedTrace(steps, trace, hist) {
+			text += "FAILS " + jf[0] + " at step " + jf[2] + ": " + jf[1] + "\n"
+			if jf[0] == f.Signature {
+				again = true
+			}
+		}
+		if !again {
+			text += "the recorded failure " + f.Signature + " does not recur\n"
+		}
+		return text, again
+	}
 	register(&family{
 		name: "streamsched",
 		gen:  nextSchedCase,
